@@ -1,8 +1,9 @@
 #!/bin/bash
-# runs every thorough tier once, sequentially, logging a summary line each
+# usage: thorough_pass.sh <budget seconds> <ids...>  -- runs thorough tiers once, sequentially, logging a summary line each
 cd /verif
+B=$1; shift
 for id in "$@"; do
-  s=$(date +%s); nice -n 10 ./bin/gosx -check checks/$id.json -tier thorough -no-evidence > /tmp/thorough_$id.log 2>&1; rc=$?; e=$(date +%s)
+  s=$(date +%s); nice -n 5 ./bin/gosx -check checks/$id.json -tier thorough -no-evidence -budget $B > /tmp/thorough_$id.log 2>&1; rc=$?; e=$(date +%s)
   echo "$id exit=$rc $((e-s))s $(grep -E '^  paths=' /tmp/thorough_$id.log | cut -c1-150)" >> /tmp/thorough_summary.txt
   grep -E "INCONCL|ENGINE|^VIOLATION" /tmp/thorough_$id.log | head -3 >> /tmp/thorough_summary.txt
 done
